@@ -10,6 +10,7 @@ The comparison operators of the refusal test and of the half-open selection are 
 (`Gen.protocolTCRefusal`, `Gen.selectLo`, `Gen.selectHi`; translate/c04.py): see `C14_source_facts`.
 -/
 import MxlVerif.Lemmas.C14Index
+import MxlVerif.Lemmas.C14Rows
 namespace Mxl.C14
 open Mxl.C04
 
@@ -85,6 +86,41 @@ theorem C14_protocol_tc_is_fold {σ} (S : Sys σ) (s : Sim σ) (steps : List PSt
          if last ≤ T then (s, some .valueError) else
          runStop S s (expandProtocolTC (if rel then pts.map (· + T) else pts) T (normSteps steps))) :=
   simulateProtocolTC_eq S s steps pts rel T hwf he hT
+
+/-- applying row `i` of the table is applying step `i`'s own dict, whatever the parameter values are before: the
+    row is the dict in column order, and `update_parameters` of a dict with distinct names does not depend on the
+    order (same resulting parameters, same KeyError for an unknown name).  `distinctNames` — every step's names are
+    distinct — always holds of Python dicts; it is a condition on the wire format of the model only. -/
+theorem C14_row_applies_step_values (steps : List PStep) (hd : distinctNames steps = true) (pars : Pars) :
+    ∀ s ∈ steps, parsUpdate pars (rowDict (columns [] (steps.map (·.2))) s.2) = parsUpdate pars s.2 :=
+  parsUpdate_normSteps steps hd pars
+
+/-- hence `simulate_protocol` is the fold over the steps *as the caller wrote them*:
+    `update_parameters(step₁'s dict); simulate(T+d₁); update_parameters(step₂'s dict); …` — each step's values govern
+    its interval, for steps naming any parameters in any order -/
+theorem C14_protocol_is_fold_of_steps {σ} (S : Sys σ) (s : Sim σ) (steps : List PStep) (n : Nat) (T : Rat)
+    (hwf : wfSteps steps = true) (hd : distinctNames steps = true) (he : s.errors = 0)
+    (hT : reached? s.segs = .ok T) :
+    stepP S s (.protocol steps n) = runStop S s (expandProtocol T n steps) := by
+  rw [C14_protocol_is_fold S s steps n T hwf he hT]
+  exact runStop_expand_rows S n _ steps (fun pars => parsUpdate_normSteps steps hd pars) T s
+
+/-- the same for the time-course form (after its argument checks) -/
+theorem C14_protocol_tc_is_fold_of_steps {σ} (S : Sys σ) (s : Sim σ) (steps : List PStep) (pts : List Rat)
+    (rel : Bool) (T : Rat) (hwf : wfSteps steps = true) (hd : distinctNames steps = true) (he : s.errors = 0)
+    (hT : reached? s.segs = .ok T) :
+    stepP S s (.protocolTC steps pts rel) =
+      (if steps.isEmpty then (s, some .typeError) else
+       match (if rel then pts.map (· + T) else pts).getLast? with
+       | none => (s, some .indexError)
+       | some last =>
+         if last ≤ T then (s, some .valueError) else
+         runStop S s (expandProtocolTC (if rel then pts.map (· + T) else pts) T steps)) := by
+  rw [C14_protocol_tc_is_fold S s steps pts rel T hwf he hT]
+  have := runStop_expandTC_rows S (if rel then pts.map (· + T) else pts) _ steps
+    (fun pars => parsUpdate_normSteps steps hd pars) T s
+  unfold normSteps
+  simp only [this]
 
 /-- in the fold, step `i`'s values are applied immediately before the stretch that ends at its
     cumulative end and nothing else happens in between: the head of the expansion is
